@@ -91,7 +91,11 @@ def f4_graphs(rng, q):
     specs = []
     for i in range(2 if q else 10):
         n = rng.choice([5000, 7000]) if q else rng.choice([9000, 20000, 60000])
-        specs.append(("affine", n, [rng.choice([3, 5, 7, 11]), rng.randint(0, 50), rng.choice([1, 2, 3, 97])]))
+        while True:
+            params = [rng.choice([3, 5, 7, 11]), rng.randint(0, 50), rng.choice([1, 2, 3, 97])]
+            if big_layers(dict(family="affine", n=n, params=params)) * n <= 30_000_000:
+                break
+        specs.append(("affine", n, params))
     specs.append(("grid", 80 * 60, [80, 60]) if q else ("grid", 100 * 80, [100, 80]))
     specs.append(("tree", 6000 if q else 40000, []))
     # (the visitor re-executes the model along each path, which is quadratic in the fan-out: keep the bush moderate)
@@ -131,14 +135,27 @@ def big_reach(g):
             k = p[0]
             return [s + 1] if s < k else (list(range(k + 1, n + 1)) if s == k else [])
     seen = {1}
-    st = [1]
-    while st:
-        s = st.pop()
-        for t in succs(s):
-            if t not in seen:
-                seen.add(t)
-                st.append(t)
+    frontier = [1]
+    layers = 0
+    while frontier:
+        layers += 1
+        nxt = []
+        for s in frontier:
+            for t in succs(s):
+                if t not in seen:
+                    seen.add(t)
+                    nxt.append(t)
+        frontier = nxt
+    g["_layers"] = layers
     return seen
+
+
+def big_layers(g):
+    """number of BFS layers (sizing only: the recording visitor re-executes the model along the path of every visit, so
+    its cost is |Reach| x depth; graphs too deep for the harness watchdog are not generated)"""
+    h = dict(g)
+    big_reach(h)
+    return h["_layers"]
 
 
 def big_props(rng):
@@ -219,11 +236,16 @@ def c05(res):
     write_ndjson(sp, scs)
     run_vh(["market", "--in", sp, "--out", so], timeout=3000)
     outs = read_ndjson(so)
-    bad, cov = validate_events(res, wd, [(o["sid"], o["events"]) for o in outs], "scen")
+    # (the log of a scenario whose threads never returned may be a worker spinning on the market: a prefix is validated)
+    def evs_of(o):
+        return o["events"] if not o["hung"] or len(o["events"]) <= 4000 else o["events"][:4000]
+    bad, cov = validate_events(res, wd, [(o["sid"], evs_of(o)) for o in outs], "scen")
     bysid = {s["sid"]: s for s in scs}
     for o in outs:
         if o["hung"]:
-            res.violation("market/thread_never_returned", dict(check="hang", scenario=bysid[o["sid"]], events=o["events"]))
+            res.violation("market/thread_never_returned", dict(check="hang", scenario=bysid[o["sid"]], n_events=len(o["events"]),
+                                                               events=o["events"][:120], last_events=o["events"][-40:]))
+            res.notes.append("the scenario runner stops after a scenario whose threads never return: %d of %d scenarios were run" % (len(outs), len(scs)))
     for b in bad:
         for why in b["why"]:
             res.violation("market/%s" % why, dict(check="market_trace", event=b, scenario=bysid[b["run"]]))
@@ -291,6 +313,20 @@ def c05(res):
         g = g2[r["gi"] - 1]
         if g["poison"] and r["done"]["joined"] and not r["done"]["join_panicked"]:
             res.violation("panic_swallowed/%s" % r["cfg"]["strategy"], dict(check="panic_surfaces", graph_id=g["id"], cfg=r["cfg"], done=r["done"]))
+    # ... and the other workers stop too (within their current block): two long chains, one worker each after the first
+    # block; the owner of the odd chain panics, the evaluations begun after that are counted by the model
+    PP, LB = 2500, 40000
+    tc = dict(id="F4-twochains", family="twochains", n=2 * (PP + LB), init=[1, 2], succ=[], inb=[], params=[], poison=2 * PP + 1, rep=[],
+              props=big_props(rng))
+
+    def tcfgs(i, g):
+        return [gg.base_cfg(s_, t, no_visitor=True, watchdog_ms=60000) for s_ in ("bfs", "dfs") for t in (2, 3) for _ in range(1 if q else 4)]
+    runs3, _ = checker_runs(res, "C05", [tc], tcfgs, ["joined", "stop_after_panic"], wd, "twochains")
+    for r in runs3:
+        if r["done"]["joined"] and not r["done"]["join_panicked"]:
+            res.violation("panic_swallowed/%s" % r["cfg"]["strategy"], dict(check="panic_surfaces", graph_id=tc["id"], cfg=r["cfg"], done=r["done"]))
+    res.notes.append("two chains, panic in one owner: evaluations begun after the panic per run = %s (bound: threads x 1500 + 8000)" % (
+        sorted(r["done"].get("evals_after_poison", -1) for r in runs3)))
     allcov = sorted(set(tuple(c) for c in cov + cov2 + cov3))
     res.extra["protocol_steps_covered_by_real_traces"] = ["%s:%s" % c for c in allcov]
     res.rule = ("design: JobMarket.tla model-checked for 1-3 workers (+timeout thread): NoDuplication, NoLoss, CloseOnlyWhenIdle, "
